@@ -57,6 +57,8 @@ thread_local! {
     static CANCEL_IN_FLIGHT: Cell<bool> = const { Cell::new(false) };
     static CANCEL_NOW: Cell<bool> = const { Cell::new(false) };
     static PREEMPT_IN_FLIGHT: Cell<bool> = const { Cell::new(false) };
+    static YIELDS: Cell<u64> = const { Cell::new(0) };
+    static CANCEL_AT_YIELD: Cell<Option<u64>> = const { Cell::new(None) };
 }
 
 /// Ask the executor to drop the current activity at its next `Pending` inside a delegated store
@@ -73,6 +75,23 @@ pub fn request_cancel_in_flight() {
 /// seam-to-seam stepping otherwise never produces.
 pub fn request_preempt_in_flight() {
     PREEMPT_IN_FLIGHT.with(|c| c.set(true));
+}
+
+/// Number of yields seen since `reset_yields`: polls that returned `Pending` outside any delegated
+/// call and outside any seam although the activity had already woken itself (`yield_now()` and the
+/// like inside the code under test). Each is an await point at which the future can be dropped.
+pub fn yields_seen() -> u64 {
+    YIELDS.with(|y| y.get())
+}
+
+pub fn reset_yields() {
+    YIELDS.with(|y| y.set(0));
+    CANCEL_AT_YIELD.with(|c| c.set(None));
+}
+
+/// Ask the executor to drop the activity at its n-th yield (counted from `reset_yields`).
+pub fn request_cancel_at_yield(n: u64) {
+    CANCEL_AT_YIELD.with(|c| c.set(Some(n)));
 }
 
 /// Withdraw a preemption request that was not used (the call answered without a `Pending`).
@@ -328,6 +347,14 @@ impl StepExec {
                     }
                     if act.flag.woken.load(SeqCst) {
                         // A yield, not a park.
+                        if !in_foreign_call {
+                            let n = YIELDS.with(|y| y.replace(y.get() + 1));
+                            if CANCEL_AT_YIELD.with(|c| c.get()) == Some(n) {
+                                CANCEL_AT_YIELD.with(|c| c.set(None));
+                                self.acts[i].fut = None;
+                                return Ok(Step::Cancelled { act: i });
+                            }
+                        }
                         tokio::task::yield_now().await;
                         continue;
                     }
